@@ -86,6 +86,12 @@ Ancestor(s, h, v) ==
 \* mirrors object.ExtendedSpatialID.Higher
 Higher(s, dh, dv) == Ancestor(s, s[1] - dh, s[4] - dv)
 
+\* ---- expansion of an extended ID to single-zoom spatial IDs (C10) -------
+\* mirrors transform.ConvertExtendedSpatialIDToSpatialIDs: raise the coarser axis
+ExpandImpl(s) == LET m == MaxOf(s[1], s[4])
+                 IN  {ExtToSp(t) : t \in ChangeZoomOne(s, m, m)}
+ExpandCount(s) == IF s[1] < s[4] THEN Pow2(2 * (s[4] - s[1])) ELSE Pow2(s[1] - s[4])
+
 \* ---- merge (C04) -- mirrors integrate.MergeExtendedSpatialIds ----------
 Eligible(s, h, v) == s[1] >= h /\ s[4] >= v
 
